@@ -1,6 +1,6 @@
 (* C18 - Declining changes only the offer list or the clock; truncation counts exactly. *)
 From Coq Require Import List ZArith Bool.
-From JSL Require Import Base.Res SM.Types SM.Util SM.Handler SM.Step SM.Middleware SMP.Decline Gen.Kernels Gen.KernelsEq.
+From JSL Require Import Base.Res SM.Types SM.Util SM.Handler SM.Step SM.Middleware SMP.Decline Gen.Kernels Gen.KernelsEq SM.Inv SMP.StepInv SMP.Reflect SMP.Clock SMP.DeclineStrict.
 Import ListNotations.
 Open Scope Z_scope.
 
@@ -49,3 +49,20 @@ Theorem C18_truncation_rule_is_the_code's :
   forall m, should_truncate m = gen_should_truncate (mw_trunc_active m) (Z.of_nat (mw_noop m)) (Z.of_nat (mw_act m)).
 Proof. exact gen_should_truncate_eq. Qed.
 Print Assumptions C18_truncation_rule_is_the_code's.
+
+(* "declining the last remaining offer ... strictly advances time": over whole runs of every instance, a decline of the only offer that does not end the
+   episode leaves the clock strictly later. At a decision point nothing is due - the simulator would have applied it: create_timed_transitions is empty
+   there -, so every pending completion and arrival lies strictly in the future (a PROCESSING record ending now would make its machine due, an AGV whose
+   occupied_till is now would get its transition); the forcing time machine jumps to the earliest of them or by one unit, and the event loop never goes
+   back (SMP/DeclineStrict.v). Exempt: a decline after which the episode terminates - the clock is then SET to the latest completion (C04), which may
+   lie before the decline. *)
+Theorem C18_declining_the_last_offer_strictly_advances_time :
+  forall (sigma : oracle) (i : inst) (fuel : nat) (x0 : state) (joker0 : Z) (ta : bool) (r : result) (m : mw)
+         (o1 : transition) (r' : result) (m' : mw) (lg : mlog),
+    inst_nonneg_b i = true ->
+    clock_b x0 = true -> wfs_b i x0 = true -> fresh2_b i x0 = true -> nodep_b x0 = true ->
+    reach sigma i fuel x0 joker0 ta r m -> r_offers r = [o1] -> mw_step sigma i fuel r m 0 = MOk r' m' lg ->
+    r_offers r' <> [] -> s_now (r_x r) < s_now (r_x r').
+Proof. intros sigma i fuel x0 joker0 ta r m o1 r' m' lg Hnn. apply (run_decline_last_strict sigma i Hnn). Qed.
+Print Assumptions C18_declining_the_last_offer_strictly_advances_time.
+
